@@ -397,6 +397,9 @@ class Engine:
             is_not = isinstance(test.ops[0], ast.IsNot)
             if isinstance(v.ty, TOpt) and (is_not == positive) and isinstance(test.ops[0], (ast.Is, ast.IsNot)):
                 out[test.left.id] = Val(v.ty.elem, v.ty.val(v.t), v.mut)
+        if isinstance(test, ast.Name) and test.id in st.env and positive and isinstance(st.env[test.id].ty, TOpt):
+            v = st.env[test.id]  # `if x:` on an Optional: a truthy x is not None
+            out[test.id] = Val(v.ty.elem, v.ty.val(v.t), v.mut)
         return out
 
     def s_If(self, node, st):
@@ -500,7 +503,8 @@ class Engine:
                 raise Unsupported(f"loop #{ordinal} has no invariant in the contract", node)
             raise Unsupported("bounded unrolling of symbolic-length loops not enabled", node)
         srcs = self._alias_sources(node, st)
-        mutated = _assigned(node.body) | _mutated_receivers(node.body)
+        mutated = _assigned(node.body) | {v for v in _mutated_receivers(node.body)
+                                         if v in srcs and self._may_mutate(v, st.env[srcs[v]].ty.elem, node.body)}
         mods = sorted(_assigned(node.body) | _target_names(node.target) | {q for v, q in srcs.items() if v in mutated})
         a = self.pre
 
@@ -548,6 +552,21 @@ class Engine:
             ex.pc.append(cl)
         results.append((ex, None))
         return results
+
+    def _may_mutate(self, var: str, elem_ty, body: list[ast.stmt]) -> bool:
+        """Does the loop body possibly mutate the object bound to `var`?  Attribute stores do; a method call does unless
+        its contract (looked up through the record type) declares no `modifies`."""
+        for s_ in body:
+            for n in ast.walk(s_):
+                if isinstance(n, ast.Attribute) and isinstance(n.ctx, ast.Store) and isinstance(n.value, ast.Name) \
+                        and n.value.id == var:
+                    return True
+                if isinstance(n, ast.Call) and isinstance(n.func, ast.Attribute) and isinstance(n.func.value, ast.Name) \
+                        and n.func.value.id == var:
+                    c = self.registry.get(f"{elem_ty.name}.{n.func.attr}") if isinstance(elem_ty, TRec) else None
+                    if c is None or c.modifies:
+                        return True
+        return False
 
     def _alias_sources(self, node: ast.For, st: State) -> dict[str, str]:
         """Loop variables that are *the elements themselves* of a named sequence of mutable records:
@@ -830,6 +849,11 @@ class Engine:
         # message text is dropped: an opaque string.  Sub-expressions are NOT evaluated (they could only raise
         # through __format__/__str__, which is outside the model).
         return TStr.fresh("msg")
+
+    def e_NamedExpr(self, node, st):
+        v = self.eval(node.value, st)
+        self.assign(node.target, v, st, node)
+        return v
 
     def e_Name(self, node, st):
         if node.id in st.env:
@@ -1166,7 +1190,38 @@ class Engine:
         return r
 
     def e_BinOp(self, node, st):
+        if isinstance(node.op, ast.Sub):
+            sets = [self._as_set(x, st) for x in (node.left, node.right)]
+            if all(x is not None for x in sets):
+                return self.set_difference(sets[0], sets[1], st, node)
         return self.binop(node.op, self.eval(node.left, st), self.eval(node.right, st), st, node)
+
+    def _as_set(self, node: ast.expr, st: State):
+        """A set-valued operand: a set variable/expression, or the keys view `d.keys()` of a dict."""
+        if isinstance(node, ast.Call) and isinstance(node.func, ast.Attribute) and node.func.attr == "keys" \
+                and not node.args and not node.keywords:
+            d = self.eval(node.func.value, st)
+            if isinstance(d.ty, TDict):
+                ty = TSet(d.ty.key)
+                return Val(ty, ty.mk(d.ty.dom(d.t), d.ty.size(d.t)))
+            return None
+        if isinstance(node, ast.Name) and node.id in st.env and isinstance(st.env[node.id].ty, TSet):
+            return st.env[node.id]
+        return None
+
+    def set_difference(self, a: Val, b: Val, st: State, node) -> Val:
+        """a - b: membership pointwise; the ghost cardinality is only characterised as zero / non-zero."""
+        if a.ty.name != b.ty.name:
+            raise Unsupported("difference of sets of different element sorts", node)
+        ty = a.ty
+        r = ty.fresh("diff")
+        k = z3.Const(fresh_name("dk"), ty.key.sort())
+        mk_ = z3.Select(ty.mem(r.t), k)
+        inside = z3.And(z3.Select(ty.mem(a.t), k), z3.Not(z3.Select(ty.mem(b.t), k)))
+        st.assume(z3.ForAll([k], mk_ == inside, patterns=[mk_]))
+        st.assume(ty.card(r.t) >= 0)
+        st.assume((ty.card(r.t) == 0) == z3.ForAll([k], z3.Not(inside)))
+        return r
 
     def concat(self, a: Val, b: Val, st, node) -> Val:
         if isinstance(a.ty, TTuple) and isinstance(b.ty, TTuple):
